@@ -193,6 +193,9 @@ impl Future for Sleep {
                     )
                 });
                 *me.handle = Some(handle);
+            } else if let Some(handle) = me.handle.as_ref().get_ref() {
+                // The future may have moved to another task since it was registered.
+                handle.update_waker(cx.waker());
             }
             Poll::Pending
         } else {
